@@ -3,8 +3,8 @@
    A-Z a-z 0-9 + /, padding =, non-strict trailing bits) as yq drives it:
 
      encode : EncodeToString of the node value;
-     decode : the text goes through yq's base64Padder (counts *every* byte
-              read, newlines included, and appends 4 - count mod 4 pad
+     decode : the text goes through yq's base64Padder (counts the bytes read
+              that are not CR / LF and appends 4 - count mod 4 pad
               characters at EOF when count mod 4 <> 0), then through
               base64.NewDecoder, which strips CR / LF and decodes 4-character
               quanta; a '=' quantum must be the last one.
@@ -121,7 +121,7 @@ Fixpoint strip_newlines (s : str) : str :=
 Fixpoint repeat_n (c : N) (n : nat) : str :=
   match n with O => [] | S k => c :: repeat_n c k end.
 
-(* base64Padder: count is the number of bytes read, newlines included;
+(* base64Padder: count is the number of bytes counted (see b64_decode);
    at EOF it supplies 4 - count mod 4 pad characters when count mod 4 <> 0 *)
 Definition b64_pad_count (s : str) : nat :=
   let m := N.of_nat (length s) mod 4 in
@@ -151,13 +151,9 @@ Definition b64_stream (t : str) (padn : nat) : b64_result :=
       end
   end.
 
-(* base64Decoder.Decode on the whole input *)
+(* base64Decoder.Decode on the whole input; the padder counts the bytes
+   that are not CR / LF (repaired in /repo: it used to count every byte) *)
 Definition b64_decode (s : str) : b64_result :=
-  b64_stream (strip_newlines s) (b64_pad_count s).
-
-(* what a padder that counts only the characters the decoder will see would
-   do: used to state the fix candidate for the newline defect *)
-Definition b64_decode_fixed (s : str) : b64_result :=
   b64_stream (strip_newlines s) (b64_pad_count (strip_newlines s)).
 
 (* drop the trailing pad characters: the "unpadded input" yq wants to accept *)
